@@ -87,6 +87,14 @@ PosCheck(n) ==
   ELSE IF \E i \in DOMAIN n.c : ~(n.s <= n.c[i].s /\ n.c[i].e <= n.e) THEN "child-outside-parent"
   ELSE IF \E i \in 1..(Len(n.c)-1) : n.c[i].e > n.c[i+1].s THEN "siblings-overlap-or-disorder"
   ELSE PosCheckSeq(n.c, 1)
+\* the class of finding D37: the only children sticking out of their parent are LAST children that end after the layout following the
+\* parent's end (a trailing empty match, which GLR places after the layout; the parent's link took the span of another alternative)
+RECURSIVE OnlyTrailingLayoutExcess(_)
+OnlyTrailingLayoutExcess(n) ==
+  IF IsT(n) THEN TRUE
+  ELSE /\ \A i \in DOMAIN n.c : (n.s <= n.c[i].s /\ n.c[i].e <= n.e)
+                                \/ (i = Len(n.c) /\ n.s <= n.c[i].s /\ InR(n.e) /\ InR(n.c[i].e) /\ n.c[i].e > n.e /\ Skip(n.e) = n.c[i].e)
+       /\ \A i \in DOMAIN n.c : OnlyTrailingLayoutExcess(n.c[i])
 RECURSIVE Concat(_, _)
 Concat(ls, i) == IF i > Len(ls) THEN <<>> ELSE ls[i].l \o ls[i].v \o Concat(ls, i+1)
 Lossless(t) ==
@@ -172,6 +180,7 @@ Clauses(RF) ==
  \cup (IF C.consume /\ sentence /\ glr.kind \notin {"forest"} THEN {"C01:glr-rejects-sentence"} ELSE {})
 
 Flags(RF) == [sentence |-> (Roots \cap RF.all) # {}, exact |-> C.built /\ Exact, linear |-> Linear,
+              trailingLayoutExcessOnly |-> \A i \in DOMAIN C.glr.trees : Struct(C.glr.trees[i]) # "ok" \/ OnlyTrailingLayoutExcess(C.glr.trees[i]),
               lvp |-> LVP(EarleySets(P, PathFrom(L.s0)[1])), ntok |-> Len(PathFrom(L.s0)[1])]
 
 Init == cid \in DOMAIN Cases /\ phase = 0 /\ verdict = <<>>
